@@ -1,5 +1,11 @@
 #!/bin/sh
-# regenerates _CoqProject (all .v files except generated case files) and the Makefile
+# regenerates _CoqProject (all .v files except generated case files) and the Makefile, only on change, under a lock
 cd "$(dirname "$0")"
-{ cat _CoqProject.head; find . -name '*.v' ! -path './_cases/*' | sed 's|^\./||' | sort; } > _CoqProject
+exec 9>.genlock
+flock 9
+tmp=$(mktemp _CoqProject.XXXXXX)
+{ cat _CoqProject.head; find . -name '*.v' ! -path './_cases/*' | sed 's|^\./||' | sort; } > "$tmp"
+if [ -f _CoqProject ] && [ -f Makefile ] && [ -f Makefile.conf ] && cmp -s "$tmp" _CoqProject; then rm -f "$tmp"; exit 0; fi
+mv "$tmp" _CoqProject
 coq_makefile -f _CoqProject -o Makefile >/dev/null
+exit 0
